@@ -163,6 +163,10 @@ func GenSchema(t *rapid.T, formats []string) Schema {
 				}
 				s.Fields = append(s.Fields, Field{Name: name, Type: fieldTypes[name], Pool: subPool(t, poolOf(fieldTypes[name]), name)})
 			}
+			// Sometimes a field holds a nested object or an array (exposed as its JSON text).
+			if s.Format == "json" && rapid.IntRange(0, 2).Draw(t, "nested-field") == 0 {
+				s.Fields = append(s.Fields, Field{Name: "meta", Type: "obj", Pool: []string{`{"user":"bob"}`, `[1,2]`, `{"user":"eve"}`, `[]`}})
+			}
 			// Sometimes a field shadows a record label (a parser stage must override it).
 			if len(s.Labels) > 0 && rapid.IntRange(0, 3).Draw(t, "shadow") == 0 {
 				l := s.Labels[0]
@@ -312,6 +316,17 @@ func GenRecs(t *rapid.T, s Schema, maxN int, distinctTS bool) []model.Rec {
 				}
 				jv := model.JV{K: "str", S: v}
 				switch f.Type {
+				case "obj":
+					switch v {
+					case `{"user":"bob"}`:
+						jv = model.JV{K: "obj", Obj: []model.JField{{Key: "user", Val: model.JV{K: "str", S: "bob"}}}}
+					case `{"user":"eve"}`:
+						jv = model.JV{K: "obj", Obj: []model.JField{{Key: "user", Val: model.JV{K: "str", S: "eve"}}}}
+					case `[1,2]`:
+						jv = model.JV{K: "arr", Arr: []model.JV{{K: "num", S: "1"}, {K: "num", S: "2"}}}
+					case `[]`:
+						jv = model.JV{K: "arr"}
+					}
 				case "int", "float":
 					if _, isNum := numValue(v); isNum && rapid.IntRange(0, 3).Draw(t, "numasstr") != 0 {
 						jv = model.JV{K: "num", S: v}
